@@ -332,6 +332,9 @@ def generate():
     parts.append(lean_parser_table(p))
     r = extract_resolver()
     parts.append(lean_resolver(r))
+    sys.path.insert(0, os.path.dirname(os.path.abspath(__file__)))
+    from extract_c11 import extract_c11
+    parts.append(extract_c11())
     parts.append("end FormulaeModel.Generated\n")
     return "\n".join(parts), dict(parser=p, resolver=r)
 
